@@ -123,6 +123,8 @@ type R2Case struct {
 	Handshake string     `json:"handshake,omitempty"` // "" | badsig
 }
 
+const keyVerifyTag = "C19/rhp2-verifytag-ciphertext-multiple-of-16"
+
 const (
 	r2Prefix  = 8
 	r2Nonce   = 12 // ChaCha20-Poly1305 nonce
@@ -210,6 +212,12 @@ func checkRHP2(c R2Case) error {
 			return stats.Failf("", "harness: unknown dir %q", m.Dir)
 		}
 		p.frame = r2FrameSize(payload)
+		if (m.Dir == "raw" || m.Dir == "rawerr") && (p.frame-r2Prefix-r2Nonce-r2Tag)%16 == 0 && stats.KnownOpen(keyVerifyTag) {
+			// open known finding: VerifyTag rejects authentic messages whose ciphertext length is a
+			// multiple of 16. Read this message with ReadResponse instead so the session goes on.
+			rec.Excluded(keyVerifyTag)
+			p.m.Dir = map[string]string{"raw": "resp", "rawerr": "err"}[m.Dir]
+		}
 		msgSize := uint64(p.frame - r2Prefix)
 		switch m.Limit {
 		case "under":
@@ -388,6 +396,11 @@ func checkRHP2(c R2Case) error {
 					return nil
 				}
 			}
+			if fc != nil && side == faultSide {
+				// the side whose traffic was modified has nothing more to send: hang up, so that a
+				// peer still waiting for the rest of a shortened frame is released
+				conn.Close()
+			}
 			return nil
 		}
 	}
@@ -412,7 +425,14 @@ func checkRHP2(c R2Case) error {
 	last := len(plans) - 1
 	switch {
 	case fc != nil && !applied:
-		// the frame was never written (cannot happen for an in-range frame unless an earlier step failed)
+		// the frame was never written: an earlier message failed although nothing was modified
+		for i := range plans {
+			for s := 0; s < 2; s++ {
+				if o := outs[s][i]; o.done && o.err != nil {
+					return fail("message %d (%s %s n=%d frame=%d) failed on side %d without any modification in transit: %v", i, plans[i].m.Dir, plans[i].m.Kind, plans[i].m.N, plans[i].frame, s, o.err)
+				}
+			}
+		}
 		return fail("harness: fault on frame %d of side %d was not applied; outcomes %v / %v", fc.spec.Frame, faultSide, outs[0], outs[1])
 	case fc != nil:
 		reader := 1 - faultSide
@@ -578,3 +598,56 @@ func drawRHP2(t *rapid.T) R2Case {
 }
 
 func TestRHP2(t *testing.T) { stats.Prop(t, drawRHP2, checkRHP2) }
+
+// TestKnownVerifyTag: minimal reproduction of the RawResponse/VerifyTag defect. An
+// unmodified response whose ciphertext (flag byte + object, unpadded) is a multiple of
+// 16 bytes long fails authentication and closes the session: VerifyTag pads the MAC
+// input with 32-(clen%16) bytes, which is 16 bytes too many when clen%16 == 0.
+func TestKnownVerifyTag(t *testing.T) {
+	stats.ProbeKnown(t, keyVerifyTag, "rhp2 ResponseReader.VerifyTag rejects an authentic response whose ciphertext length is a multiple of 16", func() error {
+		hostKey := keyFromSeed(1, "probe")
+		a, b := net.Pipe()
+		defer a.Close()
+		defer b.Close()
+		// flag(1) + length prefix(8) + 4071 = 4080 = 255*16 bytes of ciphertext, frame 4116 > 4096 (not padded)
+		sent := &rhp2.RPCSettingsResponse{Settings: []byte(newRng(1, "probe").str(4071))}
+		var verr error
+		var got []byte
+		var renter *rhp2.Transport
+		ea, eb := runPair(
+			func() (err error) {
+				defer a.Close()
+				if renter, err = rhp2.NewRenterTransport(a, hostKey.PublicKey()); err != nil {
+					return err
+				}
+				rr, err := renter.RawResponse(1 << 16)
+				if err != nil {
+					return err
+				}
+				if got, err = drain(rr, 512); err != nil {
+					return err
+				}
+				verr = rr.VerifyTag()
+				return nil
+			},
+			func() error {
+				defer b.Close()
+				ht, err := rhp2.NewHostTransport(b, hostKey)
+				if err != nil {
+					return err
+				}
+				return ht.WriteResponse(sent)
+			})
+		if ea != nil || eb != nil {
+			return fmt.Errorf("probe could not run: %v / %v", ea, eb)
+		}
+		if verr != nil {
+			return fmt.Errorf("VerifyTag on an unmodified %d-byte ciphertext: %v (session closed: %v)", 1+8+4071, verr, renter.IsClosed())
+		}
+		want := encBytes(sent)
+		if len(got) != len(want) || string(got) != string(want) {
+			return fmt.Errorf("raw stream differs from the encoded response")
+		}
+		return nil
+	})
+}
